@@ -1,7 +1,7 @@
 import Driver.Common
 import Canopy.Model.Crash
 /-! Driver for C09/M-crash: the database as a list of applied batches; `blk` commits one block (one
-batch), `crash j` reopens at the prefix of `j` batches; the observations of a reopened store. -/
+batch), `rollback t` is `Store.Rollback(t)` (one batch, or none), `crash j` reopens at the prefix of `j` batches; the observations of a reopened store. -/
 namespace Driver.C09
 open Canopy Canopy.Store Canopy.Crash Driver
 
@@ -42,7 +42,14 @@ def step (d : Disk) (line : String) : Disk × String :=
   match words line with
   | "blk" :: rest =>
     match parseBlk rest with
-    | some b => let d' := commitBlock .single d b; (d', "ok " ++ toString (version d'))
+    | some b => let d' := commitBlock .single .lss d b; (d', "ok " ++ toString (version d'))
+    | none => bad
+  | ["rollback", t] =>
+    match t.toNat? with
+    | some t =>
+      match rollbackBatch d t with
+      | none => (d, "err")
+      | some _ => let d' := applyEv .single .lss d (.rollback t); (d', "ok " ++ toString (version d') ++ " " ++ toString d'.length)
     | none => bad
   | ["crash", j] =>
     match j.toNat? with
